@@ -394,7 +394,19 @@ def gen_obs(ctx):
         return qs
 
     ops = case["ops"]
-    if dynamic and r.random() < 0.12:
+    if dynamic and r.random() < 0.10:
+        # the bound is LOWERED after a long history has built up: the cut has to drop several entries at once
+        big = r.choice([None, 6, 5])
+        for i in range(r.randint(3, 5)):
+            t0 += 1
+            ops.append(["update", g_state(r, t0), r.choice([0, 1, 2, 3]), r.choice([0, 5, 6]), r.choice([0, 7]), big])
+        t0 += 1
+        ops.append(["update", g_state(r, t0), r.choice([0, 1, 2, 3]), r.choice([0, 5, 6]), r.choice([0, 7]), r.choice([1, 2])])
+        ops.append(["q_hist"])
+        ops.append(["q_occ", t0])
+        case["ops"] = ops[:14]
+        return case
+    elif dynamic and r.random() < 0.12:
         # a burst of updates with a small bound: the history is cut again and again
         m = r.choice([1, 2, 3])
         for i in range(r.randint(m + 1, m + 4)):
